@@ -1,0 +1,155 @@
+//go:build verif
+
+package quic
+
+// Export shims for the C09 (Initial CRYPTO framing) check of the verification harness in /verif.
+// Compiled only with -tags verif. Add-only, no behaviour change: they wire a uPacketPacker to a
+// fresh Initial crypto stream and retransmission queue exactly the way newUClientConnection does
+// (preSetup: newInitialCryptoStream / newCryptoStream / newRetransmissionQueue, then
+// initialStream.DisableScrambling, newPacketPacker, newUPacketPacker), forward to its methods and
+// flatten the unexported result structs. The packer's collaborators are passed in through exported
+// mirrors of its unexported dependency interfaces (identical method sets).
+
+import (
+	"github.com/refraction-networking/uquic/internal/ackhandler"
+	"github.com/refraction-networking/uquic/internal/handshake"
+	"github.com/refraction-networking/uquic/internal/monotime"
+	"github.com/refraction-networking/uquic/internal/protocol"
+	"github.com/refraction-networking/uquic/internal/wire"
+)
+
+// VerifPackerSealingManager has the method set of sealingManager.
+type VerifPackerSealingManager interface {
+	GetInitialSealer() (handshake.LongHeaderSealer, error)
+	GetHandshakeSealer() (handshake.LongHeaderSealer, error)
+	Get0RTTSealer() (handshake.LongHeaderSealer, error)
+	Get1RTTSealer() (handshake.ShortHeaderSealer, error)
+}
+
+// VerifPackerPacketNumberManager has the method set of packetNumberManager.
+type VerifPackerPacketNumberManager interface {
+	PeekPacketNumber(protocol.EncryptionLevel) (protocol.PacketNumber, protocol.PacketNumberLen)
+	PopPacketNumber(protocol.EncryptionLevel) protocol.PacketNumber
+}
+
+// VerifPackerAckSource has the method set of ackFrameSource.
+type VerifPackerAckSource interface {
+	GetAckFrame(_ protocol.EncryptionLevel, now monotime.Time, onlyIfQueued bool) *wire.AckFrame
+}
+
+// VerifInitialPacker is a spec-driven client packer together with the Initial crypto stream and the
+// retransmission queue it reads from.
+type VerifInitialPacker struct {
+	p *uPacketPacker
+}
+
+// VerifNewInitialPacker builds the packer of a spec-driven client connection before the handshake:
+// no handshake / 0-RTT / 1-RTT data sources are attached (the framer is empty, there is no datagram queue).
+func VerifNewInitialPacker(
+	spec *QUICSpec,
+	srcConnID protocol.ConnectionID,
+	getDestConnID func() protocol.ConnectionID,
+	pnManager VerifPackerPacketNumberManager,
+	sealers VerifPackerSealingManager,
+	acks VerifPackerAckSource,
+) *VerifInitialPacker {
+	initialStream := newInitialCryptoStream(true)
+	initialStream.DisableScrambling()
+	return &VerifInitialPacker{p: newUPacketPacker(
+		newPacketPacker(srcConnID, getDestConnID, initialStream, newCryptoStream(), pnManager, newRetransmissionQueue(), sealers, newFramer(nil), acks, nil, protocol.PerspectiveClient),
+		spec,
+	)}
+}
+
+// VerifPackedLongHeaderPacket is longHeaderPacket with exported fields.
+type VerifPackedLongHeaderPacket struct {
+	Type            protocol.PacketType
+	PacketNumber    protocol.PacketNumber
+	PacketNumberLen protocol.PacketNumberLen
+	Length          protocol.ByteCount
+	Frames          []ackhandler.Frame
+	Ack             *wire.AckFrame
+}
+
+// VerifPackedDatagram is coalescedPacket with exported fields; Data is a copy of the packet buffer.
+type VerifPackedDatagram struct {
+	Data              []byte
+	LongHdrPackets    []VerifPackedLongHeaderPacket
+	HasShortHdrPacket bool
+}
+
+func verifFlattenCoalescedPacket(cp *coalescedPacket) *VerifPackedDatagram {
+	if cp == nil {
+		return nil
+	}
+	d := &VerifPackedDatagram{HasShortHdrPacket: cp.shortHdrPacket != nil}
+	for _, lp := range cp.longHdrPackets {
+		d.LongHdrPackets = append(d.LongHdrPackets, VerifPackedLongHeaderPacket{
+			Type:            lp.header.Type,
+			PacketNumber:    lp.header.PacketNumber,
+			PacketNumberLen: lp.header.PacketNumberLen,
+			Length:          lp.length,
+			Frames:          lp.frames,
+			Ack:             lp.ack,
+		})
+	}
+	if cp.buffer != nil {
+		d.Data = append([]byte(nil), cp.buffer.Data...)
+		cp.buffer.Release() // what the send queue does once the datagram is written
+	}
+	return d
+}
+
+// WriteInitialCrypto is initialCryptoStream.Write (connection.go handleHandshakeEvent, EventWriteInitialData).
+func (v *VerifInitialPacker) WriteInitialCrypto(p []byte) (int, error) {
+	return v.p.initialStream.Write(p)
+}
+
+// InitialCryptoHasData is initialCryptoStream.HasData.
+func (v *VerifInitialPacker) InitialCryptoHasData() bool { return v.p.initialStream.HasData() }
+
+// SetToken is packer.SetToken.
+func (v *VerifInitialPacker) SetToken(token []byte) { v.p.SetToken(token) }
+
+// PackCoalescedPacket is uPacketPacker.PackCoalescedPacket.
+func (v *VerifInitialPacker) PackCoalescedPacket(onlyAck bool, maxSize protocol.ByteCount, now monotime.Time, ver protocol.Version) (*VerifPackedDatagram, error) {
+	cp, err := v.p.PackCoalescedPacket(onlyAck, maxSize, now, ver)
+	if err != nil {
+		return nil, err
+	}
+	return verifFlattenCoalescedPacket(cp), nil
+}
+
+// PackPTOProbePacket is uPacketPacker.PackPTOProbePacket.
+func (v *VerifInitialPacker) PackPTOProbePacket(encLevel protocol.EncryptionLevel, maxSize protocol.ByteCount, addPingIfEmpty bool, now monotime.Time, ver protocol.Version) (*VerifPackedDatagram, error) {
+	cp, err := v.p.PackPTOProbePacket(encLevel, maxSize, addPingIfEmpty, now, ver)
+	if err != nil {
+		return nil, err
+	}
+	return verifFlattenCoalescedPacket(cp), nil
+}
+
+// InitialAckHandler is the handler the packer attaches to Initial frames (retransmissionQueue.AckHandler).
+func (v *VerifInitialPacker) InitialAckHandler() ackhandler.FrameHandler {
+	return v.p.retransmissionQueue.AckHandler(protocol.EncryptionInitial)
+}
+
+// QueuedInitialCrypto returns (offset, length) of the CRYPTO frames waiting in the Initial
+// retransmission queue, in queue order. Read-only.
+func (v *VerifInitialPacker) QueuedInitialCrypto() [][2]protocol.ByteCount {
+	q := v.p.retransmissionQueue.initial
+	if q == nil {
+		return nil
+	}
+	out := make([][2]protocol.ByteCount, 0, len(q.crypto))
+	for _, f := range q.crypto {
+		out = append(out, [2]protocol.ByteCount{f.Offset, protocol.ByteCount(len(f.Data))})
+	}
+	return out
+}
+
+// State reads the uQUIC packer's flight bookkeeping: number of Initial datagrams built so far, whether
+// a flight builder has planned the flight, and how many planned datagrams are still unsent. Read-only.
+func (v *VerifInitialPacker) State() (initialDatagramIdx int, flightPlanned bool, flightPending int) {
+	return v.p.initialDatagramIdx, v.p.flightPlanned, len(v.p.flightPayloads)
+}
